@@ -28,7 +28,7 @@ type VScanTagged struct {
 	P string        `prop:"k2"`
 	X string        `prefix:"k3"`
 	L syslog.Logger `logger:""`
-	C string        `custom:"cv,carg=1 2"`
+	C string        `custom:"cv,carg=1 (2 3)"`
 }
 
 type vScanTaggedLower struct {
@@ -37,7 +37,7 @@ type vScanTaggedLower struct {
 	P string        `prop:"k2"`
 	X string        `prefix:"k3"`
 	L syslog.Logger `logger:""`
-	C string        `custom:"cv,carg=1 2"`
+	C string        `custom:"cv,carg=1 (2 3)"`
 }
 
 // frame fields: never to be modified
@@ -57,7 +57,7 @@ type vShapeFlat struct {
 	P string        `prop:"k2"`
 	X string        `prefix:"k3"`
 	L syslog.Logger `logger:""`
-	C string        `custom:"cv,carg=1 2"`
+	C string        `custom:"cv,carg=1 (2 3)"`
 }
 
 // vFrameFields is embedded by value in every shape; its own fields are frame fields
@@ -147,7 +147,12 @@ func (p *vCustomProc) PostProcessAfterInstantiation(c any, n string) (bool, erro
 func (p *vCustomProc) PostProcessProperties(props []*component_definition.Property, c any, n string) ([]*component_definition.Property, error) {
 	for _, pr := range props {
 		if pr.Tag == "custom" {
-			p.seen = append(p.seen, pr.StructField.Name+"|"+pr.TagVal+"|"+pr.Args().String())
+			vals, _ := pr.Args().Find("carg")
+			rec := pr.StructField.Name + "|" + pr.TagVal + "|" + pr.Args().String() + "|"
+			for _, v := range vals {
+				rec += "<" + v + ">"
+			}
+			p.seen = append(p.seen, rec)
 		}
 	}
 	return nil, nil
@@ -344,6 +349,10 @@ func VerifC11() {
 	nd.Assert(flat.w == any(provA) && flat.v == cfg.k && flat.p == cfg.k2 && flat.x == cfg.k3 && flat.l, "C11: every recognised tag of the flat shape is processed")
 	nd.Assert(flat.c == init.C, "C11: a field with a custom tag is not modified by the container")
 	nd.Assert(len(flat.custom) == 1, "C11: the custom tag processor receives exactly the field carrying its tag")
+	if len(flat.custom) == 1 {
+		rec := flat.custom[0]
+		nd.Assert(len(rec) >= 16 && rec[:5] == "C|cv|" && rec[len(rec)-11:] == "|<1><(2 3)>", "C11: the custom tag processor receives the tag's value and arguments (a bracketed group is one argument value)")
+	}
 	// frame condition, every shape
 	for _, r := range []vScanResult{flat, got} {
 		nd.Assert(r.frame.u == fr.u && r.frame.N == fr.N && r.frame.J == fr.J && r.frame.s == fr.s && r.frame.w == nil, "C11: unexported, untagged and foreign-tagged fields are never modified")
